@@ -53,8 +53,15 @@ package apk
 //@   before call (*merkleHasher).block(_, b): assert @final_short_block_is_the_buffered_tail len(b) == old(h.n) && len(b) > 0 && samearr(b, h.buf)
 //@   modifies h.n, h.count, mem(h.blocks)
 //@
+//@ func newMerkleHasher
+//@   property C05
+//@   ensures @fresh_hasher_with_an_empty_one_mib_buffer ret0 != nil && hasherOK(ret0) && ret0.n == 0 && ret0.count == 0 && sameslice(ret0.hashes, hashes)
+//@   fresh ret0
+//@   modifies nothing
+//@
 //@ func (*merkleHasher).Write
 //@   property C09 C05
+//@   standalone
 //@   ghost total int
 //@   ghost S intmap
 //@   ghost S2 intmap
@@ -73,3 +80,31 @@ package apk
 //@   ensures @invariant_restored hasherOK(h) && emitted % 1048576 == 0
 //@   ensures @buffer_holds_the_unemitted_tail_afterwards forall(i, 0, h.n, h.buf[i] == mapat(S2, emitted + i))
 //@   modifies h.n, h.count, mem(h.blocks), mem(h.buf)
+//@
+//@ func digestApkStream
+//@   property C05 C08
+//@   requires r != nil
+//@   loop 0 sig "for _, f := range inz.File" invariant hasher != nil && hasherOK(hasher) && inz == dirG && inz != nil && orig == inz.DirLoc
+//@   ghost next int = -1
+//@   ghost orig int = -1
+//@   ghost dirG *zipslicer.Directory = nil
+//@   on call zipslicer.ReadZipTar(_) ret (d, e): dirG = d; orig = ite(d != nil, d.DirLoc, -1)
+//@   on call (*zipslicer.Directory).NextFileOffset(d) ret (n, e): next = n
+//@   before call (*zipslicer.File).Dump(_, w): assert @every_member_is_digested_into_the_chunk_hasher w == iface(hasher)
+//@   before call (*merkleHasher).Finish(hh, d, mod): assert @end_record_digested_as_if_the_directory_started_where_the_signing_block_goes \
+//@        hh == hasher && d == dirG && d.DirLoc == next && mod
+//@   ensures @signing_block_goes_behind_the_last_member_and_the_directory_position_is_restored ret1 == nil ==> \
+//@        ret0 != nil && ret0.inz == dirG && ret0.sigLoc == next && dirG.DirLoc == orig && ret0.hash == hash
+//@
+//@ func (*merkleHasher).Finish
+//@   property C05
+//@   requires h != nil && inz != nil && hasherOK(h) && 0 <= inz.DirLoc
+//@   ghost flushes int = 0
+//@   ghost writes int = 0
+//@   on call (*merkleHasher).flush(_) ret (): flushes = flushes + 1
+//@   before call (*merkleHasher).Write(hh, p): assert @directory_and_end_record_are_separate_sections_each_closed_by_a_flush hh == h && writes <= 1 && \
+//@        (writes == 0 ==> flushes == 1 && sameslice(p, cdirEntries)) && (writes == 1 ==> flushes == 2 && sameslice(p, endOfDir))
+//@   on call (*merkleHasher).Write(_, _) ret (n, e): writes = writes + 1
+//@   before call (*zipslicer.Directory).WriteDirectory(d, w1, w2, f): assert @directory_and_end_record_serialised_from_the_given_archive_into_separate_buffers d == inz && w1 != w2 && !f
+//@   before call (*zipslicer.Directory).GetOriginalDirectory(d, trim): assert @original_directory_taken_with_the_gap_trimmed d == inz && trim
+//@   ensures @three_sections_closed ret1 == nil ==> writes == 2 && flushes == 3
